@@ -79,6 +79,8 @@ def summarise(res, functions=(), level="symbolic"):
         for k in ("expected", "got", "mismatch", "solver"):
             if k in ob.info:
                 d[k] = str(ob.info[k])[:600]
+        if ob.info.get("vacuous"):
+            d["vacuous"] = True
         if ob.status == "refuted":
             rp = ob.info.get("replayer")
             d["model"] = str(ob.model)[:1500] if ob.model is not None else None
@@ -155,7 +157,7 @@ class Report:
         os.makedirs(EVIDENCE, exist_ok=True)
         os.makedirs(os.path.join(REPLAYS, self.pid), exist_ok=True)
         known = load_known(self.pid)
-        n_ob = n_dis = 0
+        n_ob = n_dis = n_vac = 0
         by_backend = {}
         solver_time = 0.0
         samples = []
@@ -172,6 +174,8 @@ class Report:
             for ob in u["obligations"]:
                 n_ob += 1
                 solver_time += ob.get("time", 0.0)
+                if ob.get("vacuous"):
+                    n_vac += 1
                 if ob["status"] == "discharged":
                     n_dis += 1
                     by_backend[ob.get("backend") or "z3"] = by_backend.get(ob.get("backend") or "z3", 0) + 1
@@ -253,6 +257,7 @@ class Report:
             "ground_obligations": len(self.ground),
             "bounded_standins": [{k: v for k, v in b.items() if k != "failures"} for b in self.bounded],
             "known_findings_matched": sorted(known_hits),
+            "vacuous_obligations": n_vac,
             "failing_obligations": len(failing),
             "undecided": len(self.undecided),
             "dropped_by_extraction": DROPPED_BY_EXTRACTION,
